@@ -148,6 +148,27 @@ focus("atoms",
       dict(Enabled=ATOM_EN, MaxArgs=1, MaxStmts=1, MaxNodes=5, IntLits="<- IntLits_all", CharLits="<- CharLits_all",
            StrLits="<- StrLits_all", PrimTypes=ALL_PRIM, Builtins=ALL_BUILTINS, Addrs=nset([0, 1, 2, 3]), UnOps=["-", "!"],
            Files="<- Files_all", CmpOps=["==", "!=", "<", ">", "<=", ">="]))
+# --- repetitions (checked by checks/grammar_reps.py): chains of `as` casts, also after `cast`, with different types
+focus("casts",
+      dict(Enabled=["Module", "Fn", "As", "Cast", "Un", "Paren", "Deref", "TyPrim", "TyPtr"], MaxNodes=9,
+           PrimTypes=["u8", "i32", "i64"], Addrs=nset([0, 1])))
+# --- else-if chains (if .. else if .. else if .. [else ..])
+focus("elseif",
+      dict(Enabled=["Module", "Fn", "If", "Goto", "Block", "Deref"], MaxStmts=1, MaxBlock=0, MaxNodes=15))
+# --- reference chains x.m[i].n, &&&x, &&x = ..
+focus("steps",
+      dict(Enabled=["Module", "Fn", "Set", "Deref", "Len", "Idx", "Mem", "Int"], MaxStmts=1, MaxSteps=3, MaxNodes=7,
+           Addrs=nset([0, 3]), SetAddrs=nset([0, 1, 2]), MemberNames=["m", "n"]))
+# --- lists of three and four: parameters, members, fields of a structure literal
+focus("long",
+      dict(Enabled=["Module", "Head", "Param", "Struct", "Word", "Member", "TyPrim", "Fn", "Structural", "FieldFull",
+                    "FieldShort", "Int"],
+           MaxParams=4, MaxMembers=4, MaxFields=4, MaxNodes=11, ParamNames=["p", "q"], MemberNames=["m", "n"]))
+# --- string and character literals with bytes of every class (each control byte, 0x7f, >= 0x80, quote, backslash), written as
+#     \xHH / simple escape / \u{..}, each followed by a hexadecimal digit character, by another character, and at the end
+focus("strings",
+      dict(Enabled=["Module", "Fn", "Str", "Char"], MaxNodes=3, StrLits="<- StrLits_bytes", CharLits="<- CharLits_bytes"))
+
 # --- a form the documents do not show but generation 1 accepts: the address operator inside |x|
 focus("undoc",
       dict(Enabled=["Module", "Fn", "Len", "Idx", "Mem", "Int"], MaxNodes=5, MaxSteps=1, LenAddrs=nset([1, 2])))
